@@ -614,13 +614,18 @@ def compile_and_run(cls, methods, workdir, javac_timeout=300, java_timeout=120):
     remaining = list(todo)
     while remaining:
         # run; when a method hangs, drop it and run the rest again
-        try:
-            p = subprocess.run(['java', '-Xss8m', '-cp', workdir, cls], capture_output=True, text=True, timeout=java_timeout)
-            out = p.stdout
-            finished = True
-        except subprocess.TimeoutExpired as e:
-            out = e.stdout.decode() if isinstance(e.stdout, bytes) else (e.stdout or '')
-            finished = False
+        for attempt in (1, 4):
+            # (a JVM that printed nothing at all within the limit did not get to run: machine load, not a hang -> once more, longer)
+            try:
+                p = subprocess.run(['java', '-Xss8m', '-cp', workdir, cls], capture_output=True, text=True,
+                                   timeout=java_timeout * attempt)
+                out = p.stdout
+                finished = True
+            except subprocess.TimeoutExpired as e:
+                out = e.stdout.decode() if isinstance(e.stdout, bytes) else (e.stdout or '')
+                finished = False
+            if finished or 'BEGIN ' in out:
+                break
         cur = None
         for line in out.split('\n'):
             if line.startswith('BEGIN '):
